@@ -1,4 +1,4 @@
-"""Reproduce the defects F1-F5, F7, F10-F15 of DESIGN.md s7 against the pyins in VERIF_REPO (default /repo).
+"""Reproduce the defects F1-F5, F7, F10-F17 of DESIGN.md s7 against the pyins in VERIF_REPO (default /repo).
 Prints one line per defect: `F<k> PRESENT|ABSENT <detail>`.  Not a registered check; used to
 document the fix commits and as a regression aid."""
 import os, sys, signal
@@ -151,9 +151,17 @@ def f15():
     rel = float(np.max(np.abs(q2 - q1)) / np.max(np.abs(q1)))
     return rel > 1e-9, "Qd(2^-60 Q) / 2^-60 differs from Qd(Q) by %.3g relative" % rel
 
+def f16():
+    d = transform.compute_lla_difference([55, 37, 120], [54, 38, 100])
+    return bool(abs(float(d[0]) - 111316.214) > 0.01), "compute_lla_difference([55, 37, 120], [54, 38, 100]) = %s (dtype %s)" % (np.asarray(d).tolist(), np.asarray(d).dtype)
+
+def f17():
+    r = transform.ecef_to_lla(np.array([[2927000, 2205600, 5201400]], dtype=np.int32))
+    return bool(not np.isfinite(r).all() or abs(r[0, 0] - 55.012) > 0.01), "ecef_to_lla(int32 array) = %s" % r.tolist()
+
 
 if __name__ == "__main__":
-    which = sys.argv[1:] or ["F1", "F2", "F2b", "F3", "F3b", "F4", "F5", "F7", "F10", "F11", "F12", "F13", "F14", "F15"]
-    table = dict(F1=f1, F2=f2, F2b=f2b, F3=f3, F3b=f3b, F4=f4, F5=f5, F7=f7, F10=f10, F11=f11, F12=f12, F13=f13, F14=f14, F15=f15)
+    which = sys.argv[1:] or ["F1", "F2", "F2b", "F3", "F3b", "F4", "F5", "F7", "F10", "F11", "F12", "F13", "F14", "F15", "F16", "F17"]
+    table = dict(F1=f1, F2=f2, F2b=f2b, F3=f3, F3b=f3b, F4=f4, F5=f5, F7=f7, F10=f10, F11=f11, F12=f12, F13=f13, F14=f14, F15=f15, F16=f16, F17=f17)
     for w in which:
         run(w, table[w])
